@@ -235,3 +235,80 @@ def run_function(cj):
                     b["stmts"] = []
                     b["term"] = {"k": "unreachable", "sp": b["term"].get("sp"), "dead_after_threading": True}
     return n
+
+
+def fold_known_switches(cj):
+    """A switch on the discriminant of a local that has exactly one definition in the whole function, a literal variant
+    (`Some(x)`, `None`, `Ok(..)`, any enum variant) — typically the argument a spliced helper was called with
+    (`run_pending(Some(dir), io)` / `run_pending(None, io)`) — goes one way only: it becomes a goto, and the other side is
+    unreachable as it is in the program. Looks through plain moves of single-definition locals. Returns the number folded."""
+    blocks = cj["blocks"]
+    defs, tainted = {}, set()
+    for bi, b in enumerate(blocks):
+        for si, s in enumerate(b["stmts"]):
+            if s.get("k") != "assign":
+                continue
+            lhs = s.get("lhs") or {}
+            if lhs.get("p"):
+                tainted.add(lhs.get("l"))
+            else:
+                defs.setdefault(lhs.get("l"), []).append(s)
+            rv = s.get("rv") or {}
+            if rv.get("k") in ("ref", "rawptr") and rv.get("bk") != "shared" and isinstance(rv.get("p"), dict) and not str(rv.get("rk", "")).startswith("Fake"):
+                tainted.add(rv["p"].get("l"))
+        t = b["term"]
+        if t.get("k") == "call" and isinstance(t.get("dest"), dict):
+            if t["dest"].get("p"):
+                tainted.add(t["dest"].get("l"))
+            else:
+                defs.setdefault(t["dest"].get("l"), []).append(None)
+    argc = cj.get("body", {}).get("arg_count", 0)
+
+    def variant_of(l, hops=6):
+        while hops > 0:
+            hops -= 1
+            if l is None or l in tainted or l <= argc:
+                return None
+            ds = defs.get(l, [])
+            if len(ds) != 1 or ds[0] is None:
+                return None
+            rv = ds[0].get("rv") or {}
+            if rv.get("k") == "agg" and rv.get("ak") == "adt" and isinstance(rv.get("vidx"), int):
+                return rv["vidx"]
+            if rv.get("k") == "use":
+                pl = (rv.get("a") or {}).get("move") or (rv.get("a") or {}).get("copy")
+                if _plain_local(pl):
+                    l = pl["l"]
+                    continue
+            return None
+        return None
+
+    n = 0
+    for b in blocks:
+        t = b["term"]
+        if t.get("k") != "switch":
+            continue
+        d = _op_local(t.get("discr", {}))
+        if d is None:
+            continue
+        # the discriminant read: in this block, `d = discriminant(P)`
+        src = None
+        for s in reversed(b["stmts"]):
+            if s.get("k") == "assign" and (s.get("lhs") or {}).get("l") == d and not (s.get("lhs") or {}).get("p"):
+                rv = s.get("rv") or {}
+                if rv.get("k") == "discr" and _plain_local(rv.get("p")):
+                    src = rv["p"]["l"]
+                break
+        if src is None:
+            continue
+        v = variant_of(src)
+        if v is None:
+            continue
+        tgt = next((bb for val, bb in t.get("arms", []) if val == v), t.get("otherwise"))
+        if not isinstance(tgt, int):
+            continue
+        b["term"] = {"k": "goto", "target": tgt, "sp": t.get("sp"), "folded_switch": True}
+        n += 1
+    if n:
+        cj["folded"] = cj.get("folded", 0) + n
+    return n
